@@ -272,7 +272,7 @@ class Driver:
             tr = int_type_range(A.ex[e].get('t', ''))
             if tr:
                 out = absint.meet_range(out, tr[0], tr[1])
-                return V(out.lo, out.hi, out.lt, out.le)
+                return V(out.lo, out.hi, out.lt, out.le, ne=out.ne)
             return None
         hooks.post_call = post_call
         ez = self.entry_zero.get(key)
@@ -326,7 +326,11 @@ class Driver:
                             if sk in env and isinstance(env[sk], V):
                                 ev = strip_local_syms(env[sk])
                             else:
-                                mk = A_.member_key(A_.F.strip_casts(a))
+                                ax = A_.F.strip_casts(a)
+                                an = A_.ex[ax]
+                                if an['k'] == 'ref' and an['decl'].get('id') in A_.alias:
+                                    ax = A_.F.strip_casts(A_.alias[an['decl']['id']])     # `const char *lens=s->lengthlist`
+                                mk = A_.member_key(ax)
                                 if mk is not None and (mk[0], mk[1], True) in A_.field_inv:
                                     ev = A_.field_inv[(mk[0], mk[1], True)]
                                 elif rp in A_.param_elems:
@@ -386,10 +390,10 @@ class Driver:
                         bexp = A.ind[hin][1]
                         x = env.get(f'v{vid}')
                         if x is not None and x.hi != INF and len(chain) == 1:
-                            qk = (canon_inc(F, inc), canon_inc(F, bexp))
+                            qk = (A.canon_named(inc) if inc else '1', A.canon_named(bexp))
                             R.sumq[qk] = max(R.sumq.get(qk, 0), x.hi)
         if rv is not None and int_type_range(F.d.get('ret_t', '')):
-            R.ret = V(rv.lo, rv.hi, rv.lt, rv.le)
+            R.ret = V(rv.lo, rv.hi, rv.lt, rv.le, ne=rv.ne)
         # obligations
         for e, r in S.sub.items():
             ok = r['idx'].lo >= 0 and r['idx'].hi < r['extent']
